@@ -2,6 +2,7 @@
 CONSTANTS
   Alphabet <- Alpha11
   MaxLen = 5
+  CC = "#"
   Dump = TRUE
 INIT Init
 NEXT Next
